@@ -1,5 +1,6 @@
 ---- MODULE Trace_HashIndex ----
-(* R4 judge for C04. Record: [vsize, keys |-> <<key id>>, klens, vlens, outcome, found |-> <<BOOLEAN>>, deterministic,
+(* R4 judge for C04. found[i] covers the lookup through the file and through an io.ReaderAt that reports io.EOF together
+   with a complete read ending at the end of the data (allowed by the io.ReaderAt contract). Record: [vsize, keys |-> <<key id>>, klens, vlens, outcome, found |-> <<BOOLEAN>>, deterministic,
    layout |-> <<[n, hashes |-> <<int>> (as stored), sortedok]>> per dumped bucket (independent parser), total] *)
 EXTENDS HashIndexAbs, Util, TLC, Json
 Trace == ndJsonDeserialize("obs.ndjson")
@@ -10,7 +11,7 @@ BucketOK(b) == LET s == SortedSeq({b.hashes[i] : i \in 1..Len(b.hashes)}) IN
                /\ b.hashes = Eytzinger(s)
 LayoutOK(r) == r.outcome = "ok" => /\ \A i \in 1..Len(r.layout) : BucketOK(r.layout[i])
                                    /\ r.total = Len(r.keys)
-Accept(r) == /\ BuildAllowed(r.vsize, r.keys, r.klens, r.vlens, r.outcome, r.found, r.deterministic) /\ LayoutOK(r)
+Accept(r) == /\ BuildAllowed(r.vsize, r.keys, r.klens, r.vlens, r.outcome, r.found, r.deterministic, r.metaok) /\ LayoutOK(r)
              \* supported inputs in buckets that are not over-full must build (r.sampled: the per-insert data is a sample,
              \* so MustFail is decided by the case class: r.mustfail)
              /\ (r.outcome = "err" => r.mustfail \/ MayFail(r.avgload))
